@@ -25,7 +25,7 @@ static void add_tasks(std::vector<Task>& tasks, const Config& cfg, const std::st
                       int deep_n, int mix_depth, int mix_max_n, size_t deep_vals, unsigned grid = 64) {
   for (size_t ci = 0; ci < cfgs.size(); ++ci) {
     const Cfg c = cfgs[ci];
-    std::string tag = fam + "/k" + str(c.k) + (fam.find("req") == 0 ? std::string(c.hra ? "/hra" : "/lra") + "/coin" + str(c.init_coin) : "");
+    std::string tag = fam + "/k" + str(c.k) + (fam.find("req") == 0 ? std::string(c.hra ? "/hra" : "/lra") : "");
     { // (a) updates only, deep, restricted domain, every coin outcome
       QuantSys<Fam> sys; sys.nm = tag + "/updates-deep"; sys.slot_cfgs.push_back(c); sys.max_n = deep_n;
       sys.vals.resize(deep_vals);
@@ -79,7 +79,7 @@ int main(int argc, char** argv) {
   { // REQ float, HRA and LRA, both construction coins
     typedef ReqFam<float, std::less<float> > F;
     std::vector<Cfg> cfgs;
-    for (int h = 0; h < 2; ++h) for (int ic = 0; ic < 2; ++ic) { Cfg c; c.k = 4; c.hra = h == 1; c.init_coin = ic; if (q && ic == 1 && h == 0) continue; cfgs.push_back(c); }
+    for (int h = 0; h < 2; ++h) { Cfg c; c.k = 4; c.hra = h == 1; c.init_coin = 0; cfgs.push_back(c); }   // the construction coin is enumerated by the explorer
     for (int h = 0; h < 2; ++h) {
       std::vector<OperandSpec> m; bool hra = h == 1;
       m.push_back(opnd<F>("empty", 4, hra, "", 0)); m.push_back(opnd<F>("one", 4, hra, "2", 0)); m.push_back(opnd<F>("n10", 4, hra, rep("0123", 10).c_str(), 0));
